@@ -27,6 +27,8 @@ type c07Input struct {
 	CV      string `json:"cv"`                // ok | missing | wrong-key | other-transcript | corrupt
 	Policy2 int    `json:"policy2,omitempty"` // resume: policy of the second configuration (shares the cache)
 	Resume  bool   `json:"resume,omitempty"`
+	Suite2  uint16 `json:"suite2,omitempty"` // declined resumption: the second connection offers the session but only this other suite
+	Chain2  string `json:"chain2,omitempty"` // ... and presents this chain in the full handshake that follows
 }
 
 var c07Policies = []string{"NoClientCert", "RequestClientCert", "RequireAnyClientCert", "VerifyClientCertIfGiven", "RequireAndVerifyClientCert", "RequireAndVerifyAnyKeyUsageClientCert"}
@@ -225,6 +227,24 @@ func c07AddCase(out *emit.Out, scenario string, in c07Input) {
 	if !first.accepted {
 		return // the creating policy refused this behaviour: nothing to resume
 	}
+	if in.Suite2 != 0 {
+		// the session is offered with a suite it was not created on: the server must decline and run a full
+		// handshake, which is judged like any other full handshake (nothing of the offered session may stick)
+		in2 := in
+		in2.Suite, in2.Chain = in.Suite2, in.Chain2
+		r := c07Conn(in2, in.Policy2, reg, first.sid, first.master)
+		e2 := puppet.IsECDHE(in.Suite2)
+		b := func(i int) string { return emit.Bool(r.view[i] == 1) }
+		direct := r.direct
+		if r.resumed {
+			direct = "resumed a session on a suite it was not created on"
+		}
+		out.Add(emit.Case{Scenario: scenario + "/" + in.Stack, Trivial: false, Input: in, Direct: direct,
+			Observed: map[string]interface{}{"view": r.view, "accepted": r.accepted, "peer_certs": r.peerN, "verified_chains": r.chainsN, "resumed": r.resumed},
+			Coq: fmt.Sprintf("SrvFullCase %s %s (mkCV %s %d%%nat %s %s %s %s %s %s %s %s) %s %s %s", c07Policies[in.Policy2], emit.Bool(e2),
+				b(0), r.view[1], b(2), b(3), b(4), b(5), b(6), b(7), b(8), b(9), emit.Bool(r.accepted), emit.Bool(r.peerN > 0), emit.Bool(r.chainsN > 0))})
+		return
+	}
 	second := c07Conn(in, in.Policy2, reg, first.sid, first.master)
 	chain, _, _ := c07Chain(in.Chain)
 	n := len(chain)
@@ -274,6 +294,15 @@ func runC07(p params) error {
 				}
 				for _, cv := range cvs {
 					c07AddCase(out, "cv-"+cv, c07Input{Stack: st, Suite: su, Policy: pol, Chain: "cli", CV: cv})
+				}
+				// a session created with a certificate, then offered on another suite by a client that presents none
+				if !puppet.IsECDHE(su) && pol >= 3 {
+					other := map[uint16]uint16{0xe053: 0xe013, 0xe013: 0xe053}[su]
+					for _, pol2 := range []int{1, 3} {
+						for _, ch2 := range []string{"none", "cli-untrusted"} {
+							c07AddCase(out, "declined-resumption-then-full", c07Input{Stack: st, Suite: su, Policy: pol, Policy2: pol2, Chain: "cli", CV: "ok", Resume: true, Suite2: other, Chain2: ch2})
+						}
+					}
 				}
 				// resumption under every second policy
 				for pol2 := 0; pol2 < 6; pol2++ {
